@@ -7,6 +7,9 @@ CONSTANTS
   MaxFaults = 1
   Emit = TRUE
   FixDup = TRUE
+  AutoSave = FALSE
+  MaxEnv = 0
+  FullLast = FALSE
   DupAlso = TRUE
 INVARIANTS Safe SafeWire EmitScn
 CHECK_DEADLOCK FALSE
